@@ -230,3 +230,13 @@ Definition cc_relaxed_ok (c : cfg) (s0 : st) (js : list (Z * cres)) (fin : Z * Z
              cc_proj_eqb (cc_proj c sf) fin &&
              forallb (fun e => cc_ev_allowed c (snd e) (snd (cc_jobs_of js (fst e))) (nth (fst e) outs cc_out_default)) infs)
           (cc_perms acc).
+
+(* classification only (no theorem depends on it): some serial order explains the shown fields and which calls were
+   accepted, the kind of state-change event left aside *)
+Definition cc_outs_match_acc (ser : list (nat * cc_out)) (outs : list cc_out) : bool :=
+  forallb (fun e => Bool.eqb (cc_is_acc (snd e)) (cc_is_acc (nth (fst e) outs cc_out_default))) ser.
+Definition cc_strict_noev_ok (c : cfg) (s0 : st) (js : list (Z * cres)) (fin : Z * Z * Z * Z) (outs : list cc_out) : bool :=
+  existsb (fun order =>
+             let '(sf, ser) := cc_serial c (cc_jobs_of js) s0 order in
+             cc_proj_eqb (cc_proj c sf) fin && cc_outs_match_acc ser outs)
+          (cc_perms (seq 0 (length js))).
